@@ -6,6 +6,7 @@
 #  - ./check <prop> quick on /repo with the change applied
 # Writes /verif/seeded/<name>/{patch.diff,<demo>,SEEDED.md,meta.json}.
 set -u
+export VERIF_EVIDENCE_DIR=/verif/scratch/evidence-selftest
 prop=$1; wt=$2; name=$3
 export GOFLAGS=-mod=mod GOPROXY=off GOSUMDB=off
 cd "$wt" || exit 2
